@@ -31,6 +31,22 @@ def Src.hintOkB (s : Src) : Bool :=
   decide (s.lo ≤ s.items.length) &&
   (match s.hi with | none => true | some n => decide (s.items.length ≤ n))
 
+/-- The documented contract of `peek_last` (`RangeMOCIterator`, src/moc/mod.rs): "returns the last range
+    of the iterator (or at least a range having the last range upper bound)" — when a source announces a
+    last range, it does yield ranges and the last one ends exactly there. -/
+def Src.LastExact (s : Src) : Prop :=
+  ∀ q, s.last = some q → ∃ c, s.items.getLast? = some c ∧ c.2 = q.2
+
+/-- Executable form; `strict = false` is for a source observed after some `next()`: an exhausted vector
+    source still answers its (constant) last range. -/
+def Src.lastExactB (s : Src) (strict : Bool) : Bool :=
+  match s.last with
+  | none => true
+  | some q =>
+    match s.items.getLast? with
+    | none => !strict
+    | some c => c.2 == q.2
+
 /-- The hints a source advertises after 1, 2, … `next()` are consistent with what then remains. -/
 def laterOk : List Rng → List (Nat × Option Nat) → Prop
   | _, [] => True
@@ -143,8 +159,15 @@ def xorLoop : List Rng → List Rng → List Rng
       else (r.1, l.1) :: xorLoop ((r.2, l.2) :: lt) rt
 termination_by l r => l.length + r.length
 
+/-- `XorRangeIter::new` (repaired): when both operands end at the same index their common tail is removed
+    and nothing is known about the end of the result; otherwise the larger end is the end of the result. -/
+def xorLast (l r : Src) : Option Rng :=
+  match l.last, r.last with
+  | some r1, some r2 => if r1.2 = r2.2 then none else orLast l r
+  | _, _ => none
+
 def xorSrc (l r : Src) : Src :=
-  { depth := max l.depth r.depth, items := xorLoop l.items r.items, last := orLast l r, lo := 0,
+  { depth := max l.depth r.depth, items := xorLoop l.items r.items, last := xorLast l r, lo := 0,
     hi := binSizeHi l.afterNext r.afterNext }
 
 /-! ### minus -/
